@@ -398,6 +398,13 @@ def _find_base(ti, dst, addr):
 def _hash_bytes(p, n, seed):
     """murmur-style hash: the real algorithm of libstdc++ (hash_bytes.cc, 64-bit), on concrete bytes"""
     if n.__class__ is S: n = rt.concretize(n)
+    if seed.__class__ is S: seed = rt.concretize(seed)
+    vals = rt.read_vals(p, n) if n <= 16 else None
+    if vals is not None and any(v.__class__ is S for v in vals):
+        # symbolic bytes: an uninterpreted function of (bytes, seed) per length -- all the callers rely on is that equal inputs hash equally
+        bv = z3.Concat(*[(v.e if v.__class__ is S else z3.BitVecVal(v, 8)) for v in reversed(vals)]) if n > 1 else (vals[0].e)
+        f = z3.Function('hash_bytes_%d' % n, z3.BitVecSort(8 * n), z3.BitVecSort(64), z3.BitVecSort(64))
+        return S(f(bv, z3.BitVecVal(seed, 64)), 64)
     data = rt.read_bytes(p, n)
     mul = (0xc6a4a793 << 32) + 0x5bd1e995
     def shift_mix(v): return v ^ (v >> 47)
